@@ -674,6 +674,7 @@ func propCases(prop string, g *Gen, n int) []*Case {
 		}
 	case "C12":
 		g.Tokens = true
+		g.QuoteSafe = true
 		obs := names("report", "safedetails")
 		obs = append(obs, Obs{Name: "hop", Procs: knowing1, Sub: names("report", "safedetails")})
 		for i := 0; i < n; i++ {
